@@ -2,7 +2,7 @@
 
 use std::collections::BTreeSet;
 
-use plonky2::field::types::PrimeField64;
+use plonky2::field::types::{Field, PrimeField64};
 use plonky2::plonk::circuit_data::{CircuitData, CommonCircuitData, ProverCircuitData, VerifierCircuitData, VerifierOnlyCircuitData};
 use plonky2::plonk::proof::{CompressedProofWithPublicInputs, ProofWithPublicInputs};
 use plonky2::util::serialization::{DefaultGateSerializer, DefaultGeneratorSerializer};
@@ -168,6 +168,135 @@ fn prop(c: &Case, st: &mut Stats) -> Result<(), String> {
     roundtrip_circuit(&built.data, built.elab.witness(), Some(&built.elab.expected_pis), st)
 }
 
+// ------------------------------------------------------------------------------------------
+// recursion circuits (PoseidonMds gate/generator, dummy-proof generator, ...)
+// ------------------------------------------------------------------------------------------
+
+fn prop_recursion(c: &Case, st: &mut Stats) -> Result<(), String> {
+    use plonky2::iop::witness::{PartialWitness, WitnessWrite};
+    use plonky2::plonk::circuit_builder::CircuitBuilder;
+    use plonky2::plonk::circuit_data::CircuitConfig;
+    let mut raw = c.circuit.clone();
+    raw.config.zk = false;
+    let lim = ConfigLimits {
+        max_queries: 5,
+        allow_zk: false,
+        ..limits()
+    };
+    let o = DslOpts {
+        lookups: false,
+        ..opts()
+    };
+    let pr = prove_case::<C>(&raw, &o, &lim, st)?;
+    let inner = &pr.built.data;
+    // (1) plain recursive verifier
+    let outer = crate::props::c06::build_outer::<C>(inner);
+    let mut pw = PartialWitness::new();
+    pw.set_proof_with_pis_target(&outer.pt, &pr.proof).map_err(|e| format!("{:#}", e))?;
+    pw.set_verifier_data_target(&outer.vdt, &inner.verifier_only).map_err(|e| format!("{:#}", e))?;
+    st.label("recursive_verifier_circuit");
+    roundtrip_circuit(&outer.data, pw, Some(&pr.proof.public_inputs), st)?;
+    // (2) conditional verification against a generated dummy proof (DummyProofGenerator); the inner
+    // shape is a no-op circuit with public inputs, which the library's dummy-circuit helper can reproduce
+    let mut ib = CircuitBuilder::<F, D>::new(CircuitConfig::standard_recursion_config());
+    let n_noops = 3 + (c.circuit.program.ops.len() % 40);
+    for _ in 0..n_noops {
+        ib.add_gate(plonky2::gates::noop::NoopGate, vec![]);
+    }
+    let pis: Vec<_> = (0..1 + c.circuit.program.inputs.len() % 5).map(|_| ib.add_virtual_public_input()).collect();
+    let simple = ib.build::<C>();
+    let mut ipw = PartialWitness::new();
+    for (i, t) in pis.iter().enumerate() {
+        ipw.set_target(*t, F::from_canonical_u64(c.circuit.program.inputs[i % c.circuit.program.inputs.len()] % crate::gen::field::P)).map_err(|e| format!("{:#}", e))?;
+    }
+    let sproof = simple.prove(ipw).map_err(|e| format!("{:#}", e))?;
+    let mut b = CircuitBuilder::<F, D>::new(CircuitConfig::standard_recursion_config());
+    let pt = b.add_virtual_proof_with_pis(&simple.common);
+    let vdt = b.add_virtual_verifier_data(simple.common.config.fri_config.cap_height);
+    let cond = b.add_virtual_bool_target_safe();
+    match crate::engine::catch(|| b.conditionally_verify_proof_or_dummy::<C>(cond, &pt, &vdt, &simple.common)) {
+        Ok(Ok(())) => {
+            b.register_public_inputs(&pt.public_inputs);
+            let data = b.build::<C>();
+            let mut pw = PartialWitness::new();
+            pw.set_bool_target(cond, true).map_err(|e| format!("{:#}", e))?;
+            pw.set_proof_with_pis_target(&pt, &sproof).map_err(|e| format!("{:#}", e))?;
+            pw.set_verifier_data_target(&vdt, &simple.verifier_only).map_err(|e| format!("{:#}", e))?;
+            st.label("conditional_or_dummy_circuit");
+            roundtrip_circuit(&data, pw, Some(&sproof.public_inputs), st)?;
+        }
+        Ok(Err(e)) => return Err(format!("conditionally_verify_proof_or_dummy failed for a no-op inner circuit: {:#}", e)),
+        Err(p) => {
+            st.label("dummy_shape_not_reproducible");
+            let _ = p;
+        }
+    }
+    Ok(())
+}
+
+// ------------------------------------------------------------------------------------------
+// STARK proofs (serde) and STARK proof targets (buffer encoding)
+// ------------------------------------------------------------------------------------------
+
+#[derive(Clone, Debug, Serialize, Deserialize)]
+pub struct StarkCase {
+    pub stark: crate::gen::stark::RawStark,
+}
+
+fn stark_roundtrip<const COLS: usize, const PIS: usize>(el: &crate::gen::stark::ElabStark, st: &mut Stats) -> Result<(), String> {
+    use crate::gen::stark::*;
+    use plonky2::util::serialization::Buffer;
+    use starky::proof::{StarkProofTarget, StarkProofWithPublicInputs};
+    let stark = GenStark::<COLS, PIS> { def: std::sync::Arc::new(el.def.clone()) };
+    let proof: StarkProofWithPublicInputs<F, C, D> = starky::prover::prove::<F, C, GenStark<COLS, PIS>, D>(
+        stark.clone(),
+        &el.config,
+        trace_columns(&el.trace, COLS),
+        &el.pis,
+        None,
+        &mut plonky2::util::timing::TimingTree::default(),
+    )
+    .map_err(|e| format!("honest stark prove failed: {:#}", e))?;
+    let text = serde_json::to_string(&proof).map_err(|e| e.to_string())?;
+    let back: StarkProofWithPublicInputs<F, C, D> = serde_json::from_str(&text).map_err(|e| format!("STARK proof does not decode: {}", e))?;
+    if serde_json::to_string(&back).unwrap() != text {
+        return Err("STARK proof re-encoding differs".into());
+    }
+    starky::verifier::verify_stark_proof(stark.clone(), back, &el.config, None).map_err(|e| format!("decoded STARK proof rejected: {:#}", e))?;
+    st.evals(2);
+    // proof targets: buffer round trip
+    let mut b = plonky2::plonk::circuit_builder::CircuitBuilder::<F, D>::new(plonky2::plonk::circuit_data::CircuitConfig::standard_recursion_config());
+    let pt = starky::recursive_verifier::add_virtual_stark_proof(&mut b, &stark, &el.config, el.log_n, 0, 0);
+    let mut buf = Vec::new();
+    pt.to_buffer(&mut buf).map_err(|e| format!("StarkProofTarget::to_buffer: {:?}", e))?;
+    let mut rd = Buffer::new(&buf);
+    let pt2 = StarkProofTarget::<D>::from_buffer(&mut rd).map_err(|e| format!("StarkProofTarget::from_buffer: {:?}", e))?;
+    if pt2 != pt {
+        return Err("StarkProofTarget does not round-trip".into());
+    }
+    let mut buf2 = Vec::new();
+    pt2.to_buffer(&mut buf2).unwrap();
+    if buf2 != buf {
+        return Err("StarkProofTarget re-encoding is not byte-identical".into());
+    }
+    st.evals(1);
+    st.nontrivial(&hash_of(&text));
+    Ok(())
+}
+
+fn prop_stark(c: &StarkCase, st: &mut Stats) -> Result<(), String> {
+    let lim = crate::gen::stark::StarkLimits {
+        max_log_n: 5,
+        min_queries: 1,
+        max_queries: 6,
+        max_pow: 3,
+        min_degree: 1,
+        ..Default::default()
+    };
+    let el = crate::gen::stark::elaborate_stark(&c.stark, &lim);
+    crate::with_stark_shape!(el.shape, stark_roundtrip, &el, st)
+}
+
 pub fn run(ctx: &mut Ctx) {
     ctx.rule = "generated circuit restricted to gates/generators of the default serializer registries (incl. lookups, blinding) x its proofs; \
                 non-trivial = the circuit uses >= 3 gate types and >= 3 generator types; distinct = distinct circuit encoding; \
@@ -178,4 +307,8 @@ pub fn run(ctx: &mut Ctx) {
     let n = ctx.tier.pick(168, 4000);
     let max_ops = ctx.tier.pick(30, 80);
     ctx.run_sub("generated_circuits", n, 14, move || case(max_ops), prop);
+    let nr = ctx.tier.pick(6, 200);
+    ctx.run_sub("recursion_circuits", nr, 14, move || case(10), prop_recursion);
+    let ns = ctx.tier.pick(280, 8000);
+    ctx.run_sub("stark_proofs", ns, 14, || bx(crate::gen::stark::raw_stark().prop_map(|stark| StarkCase { stark })), prop_stark);
 }
